@@ -518,6 +518,26 @@ def thresholds(rec, seed):
                 lambda n: ns.NonOverlappingTemplateMatching(0, n),
                 lambda n: n / 8 < 4,
                 lambda n, a: z3.And(T(a[0]) == n, T(a[1]) == n / 8)))
+  # template length chosen from the block size (the ladder of the pinned
+  # implementation; NIST gives no rule): observed at the first call that
+  # enumerates the templates
+  def tmpl_stub(b, m):
+    raise _Stop('split', ('m', m))
+
+  def nonoverlapping_m(n):
+    with stubs.patched(ns, IsNonOverlappingTemplate=tmpl_stub):
+      return ns.NonOverlappingTemplateMatching(0, n)
+
+  def ladder(n, a):
+    bs = n / 8
+    want = z3.IntVal(10)
+    for bound, mm in ((32768, 9), (16384, 8), (8192, 7), (4096, 6), (2048, 5),
+                      (1024, 4), (256, 3), (64, 2)):
+      want = z3.If(bs < bound, mm, want)
+    return T(a[1]) == want
+
+  cases.append(('NonOverlappingTemplateLength', nonoverlapping_m,
+                lambda n: n / 8 < 4, ladder))
   for name, fn, insuff, split_ok in cases:
     for p in pysym.explore(make_run(fn), max_paths=400):
       e = p.eng
@@ -631,9 +651,144 @@ def thresholds(rec, seed):
                        args=dict(name=name, n=n)), bad)
 
 
+class _MathCeil(_Math):
+  """ceil of a symbolic real: decided value by value (the loop bounds of the
+  series become concrete on each path)."""
+
+  @staticmethod
+  def ceil(x):
+    if not pysym.is_sym(x):
+      import math  # pylint: disable=g-import-not-at-top
+      return math.ceil(x)
+    xr = _real(x)
+    fl = z3.ToInt(xr)
+    c = z3.If(z3.ToReal(fl) == xr, fl, fl + 1)
+    return pysym.eng().concretize(c, 'ceil')
+
+
+def cusum_pvalue(rec, seed, zs, ratio):
+  """CumulativeSumsPValue(n, z) equals the series of SP 800-22 section 2.13
+  (both sums with their exact limits) term by term, erf uninterpreted."""
+  ns, util, bm, ext = _mods()
+  rec.functions('paranoid_crypto.lib.randomness_tests.nist_suite:'
+                'CumulativeSumsPValue')
+  rec.bounds('z in %r, every n with z <= n <= %d*z (symbolic); erf and sqrt '
+             'uninterpreted; the result is compared with the series '
+             '1 - sum_{k=ceil((-n/z+1)/4)}^{floor((n/z-1)/4)} [Phi((4k+1)z/'
+             'sqrt n) - Phi((4k-1)z/sqrt n)] + sum_{k=ceil((-n/z-3)/4)}^{floor'
+             '((n/z-1)/4)} [Phi((4k+3)z/sqrt n) - Phi((4k+1)z/sqrt n)]' %
+             (zs, ratio))
+  cexs = []
+  done = 0
+  K = ratio // 4 + 2
+  orig = _float_ops()
+  try:
+    for z in zs:
+
+      def run(e, z=z):
+        n = ivar(e, 'n', lo=z, hi=ratio * z + 1)
+        e.notes['n'] = n
+        with stubs.patched(ns, math=_MathCeil):
+          got = ns.CumulativeSumsPValue(n, z)
+          t = z / _MathCeil.sqrt(2 * n)
+          x_lo1 = (-n / z + 1) / 4
+          x_lo2 = (-n / z - 3) / 4
+          x_hi = (n / z - 1) / 4
+          lo1, lo2, hi = (e.fresh('lo1'), e.fresh('lo2'), e.fresh('hi'))
+          e.assume(z3.And(
+              z3.ToReal(lo1) >= _real(x_lo1), z3.ToReal(lo1) - 1 < _real(x_lo1),
+              z3.ToReal(lo2) >= _real(x_lo2), z3.ToReal(lo2) - 1 < _real(x_lo2),
+              z3.ToReal(hi) <= _real(x_hi), z3.ToReal(hi) + 1 > _real(x_hi)))
+          acc = z3.RealVal(0)
+          for k in range(-K - 1, K + 1):
+            t1 = _real(_MathCeil.erf((4 * k - 1) * t))
+            t2 = _real(_MathCeil.erf((4 * k + 1) * t))
+            t3 = _real(_MathCeil.erf((4 * k + 3) * t))
+            acc = acc + z3.If(z3.And(lo1 <= k, k <= hi), t1 - t2, 0)
+            acc = acc + z3.If(z3.And(lo2 <= k, k <= hi), t3 - t2, 0)
+          e.notes['ref'] = 1 + acc / 2
+          e.notes['range_ok'] = z3.And(lo1 >= -K - 1, lo2 >= -K - 1, hi <= K)
+        return got
+
+      for p in pysym.explore(run, max_paths=400):
+        e = p.eng
+        rec.path(p.kind)
+        if p.kind == 'abort':
+          rec.inconclusive('path aborted: %s' % p.value)
+          continue
+        if p.kind != 'return':
+          r, m = e.feasible()
+          if r == 'sat':
+            cexs.append((z, inputs_of(e, m)))
+          continue
+        _prove(rec, e, z3.And(e.notes['range_ok'],
+                              _real(p.value) == e.notes['ref']),
+               'cusum series z=%d' % z, cexs, z)
+        done += 1
+  finally:
+    pysym._to_sreal = orig
+  rec.sample(dict(fn='CumulativeSumsPValue', zs=zs, ratio=ratio, paths=done))
+  rec.reach(1, 1 if done else 0)
+  for z, cex in cexs[:3]:
+    n = cex.get('n', z)
+    bad = replay_cusum_p(n, z)
+    rec.replayed()
+    rec.violation('nist_suite.CumulativeSumsPValue', 'series',
+                  'p-value differs from the section 2.13 series at n=%d, z=%d'
+                  % (n, z), dict(n=n, z=z),
+                  dict(module='harness.props.c12', function='replay_cusum_p',
+                       args=dict(n=n, z=z)), bad)
+
+
+def replay_cusum_p(n, z):
+  import math  # pylint: disable=g-import-not-at-top
+  ns, util, bm, ext = _mods()
+  n, z = int(n), int(z)
+  bad = False
+  # the counterexample and the neighbouring lengths with the same ratio class
+  for nn in sorted({n, 5 * z, 9 * z, 13 * z, n + 1, max(z, n - 1)}):
+    phi = lambda x: 0.5 * (1 + math.erf(x / math.sqrt(2)))
+    s1 = sum(phi((4 * k + 1) * z / math.sqrt(nn)) - phi(
+        (4 * k - 1) * z / math.sqrt(nn))
+             for k in range(math.ceil((-nn / z + 1) / 4),
+                            math.floor((nn / z - 1) / 4) + 1))
+    s2 = sum(phi((4 * k + 3) * z / math.sqrt(nn)) - phi(
+        (4 * k + 1) * z / math.sqrt(nn))
+             for k in range(math.ceil((-nn / z - 3) / 4),
+                            math.floor((nn / z - 1) / 4) + 1))
+    want = 1 - s1 + s2
+    got = ns.CumulativeSumsPValue(nn, z)
+    if abs(got - want) > 1e-9:
+      print('CumulativeSumsPValue(%d, %d) = %r, series %r' % (nn, z, got,
+                                                              want))
+      bad = True
+  if not bad:
+    print('matches the series')
+  return bad
+
+
 def replay_threshold(name, n):
   ns, util, bm, ext = _mods()
   n = int(n)
+  if name == 'NonOverlappingTemplateLength':
+    if n > 3 * 10**6:
+      print('n too large to replay concretely')
+      return False
+    bs = n // 8
+    want = 10
+    for bound, mm in ((32768, 9), (16384, 8), (8192, 7), (4096, 6), (2048, 5),
+                      (1024, 4), (256, 3), (64, 2)):
+      if bs < bound:
+        want = mm
+    try:
+      res = ns.NonOverlappingTemplateMatching((1 << n) // 3, n)
+    except ns.InsufficientDataError:
+      print('InsufficientDataError at n =', n)
+      return bs >= 4
+    lens = {len(nm.split("'")[1]) for nm, _ in res}
+    print('n = %d (block size %d): template lengths %r, ladder %d' %
+          (n, bs, sorted(lens), want))
+    return lens != {want}
   fn = {
       'BlockFrequency': lambda: ns.BlockFrequency((1 << n) // 3, n),
       'LongestRuns': lambda: ns.LongestRuns((1 << n) // 3, n),
@@ -962,7 +1117,10 @@ def replay_template(t, m):
 
 def jobs(tier, seed):
   thorough = tier == 'thorough'
-  out = []
+  out = [Job('cusum_pvalue', cusum_pvalue,
+             dict(zs=[1, 2, 3, 7] if not thorough else [1, 2, 3, 4, 5, 7, 11,
+                                                        64],
+                  ratio=14 if not thorough else 30), timeout=1800, cost=40)]
   for n in ([1, 2, 3, 4, 5, 6, 7, 8, 9] if not thorough else list(
       range(1, 14))):
     out.append(Job('random_walk_n%d' % n, random_walk, dict(n=n),
